@@ -319,6 +319,28 @@ def run(world, rep, tier, only=None):
     except ImportError:
         pass
 
+    # ------------------------------------------------------------------ C11.f inode-size growth: no stale copy is written back
+    # tune2fs -I moves blocks out of the way of the growing inode tables.  The per-inode block walk re-points
+    # i_block[] / the extent root and writes the inode itself (from its own copy).  Writing the copy taken
+    # *before* the walk afterwards would put the old block numbers back: after the walk, an inode write must be
+    # preceded by a fresh read.
+    isf = prog.fn("inode_scan_and_fix", TF)
+    walks = calls_to(isf, "ext2fs_block_iterate3", "ext2fs_block_iterate2", "ext2fs_block_iterate")
+    writes = calls_to(isf, "ext2fs_write_inode", "ext2fs_write_inode_full", "ext2fs_write_new_inode")
+    reads = calls_to(isf, "ext2fs_get_next_inode", "ext2fs_get_next_inode_full", "ext2fs_read_inode", "ext2fs_read_inode_full",
+                     "ext2fs_read_inode2")
+    rep.floor("C11.f block walk / inode write / inode read in inode_scan_and_fix", min(len(walks), len(writes), len(reads)), 1)
+    for i, wk in enumerate(walks):
+        r = isf.reach(isf.after(wk), avoid=reads)
+        stale = [w_ for w_ in writes if w_ in r]
+        wit = None
+        if stale:
+            wp = isf.witness_path(isf.after(wk), stale, avoid=reads)
+            wit = {"entry": "inode_scan_and_fix", "lines": line_path(wp or [])}
+        rep.ob("C11.f", site(isf, "no inode copy from before the block walk is written after it#%d" % i), not stale,
+               "every path from ext2fs_block_iterate3() to an inode write passes a fresh inode read: stale writes at lines %s" %
+               [w_.line for w_ in stale], wit)
+
 
 def _hurd_lit(a):
     return "EXT2_OS_HURD" in T.macros(a)
